@@ -31,3 +31,9 @@ def fill(chk):
         "Fault model: reset/epipe kill both directions, EOF is a half-close; one fault per execution (bound 1).",
         "exhaustive single-fault placement over all I/O call indices with a deviation-bounded explorer",
         "DESIGN.md 3/C17")
+
+    chk("C02", "fault_enumeration",
+        "From the post-handshake snapshot of every (version, suite, EtM) triple, in both directions, a queue of protected application records is subjected to every fault of a finite alphabet, one per execution on a deep copy: XOR masks at every header and body byte, truncation/extension with corrected header, stream truncation, replay, drop, swap, reflection from the opposite direction, earlier-epoch records, a record sealed before a KeyUpdate, and correctly keyed forgeries from the independent record layer (TLS 1.3 inner type / padding / outer header, overlong plaintext, CBC padding, outer type/version). The receiver reads to the end; only the untouched prefix may be delivered, the faulty record must raise a fatal local alert of the integrity/decoding family, close the connection and socket, put an alert on the wire and leave the session non-resumable.",
+        "One fault per execution (bound 1); SSLv3 CBC changes confined to the unauthenticated padding block are accepted by protocol design and only required to deliver the sender's plaintext; quick uses masks {0x01,0x80}, thorough all eight bits and all truncation lengths.",
+        "exhaustive single-fault enumeration over record sequences on deep-copied live connections, forgeries sealed by an independent record layer",
+        "DESIGN.md 3/C02")
